@@ -1443,3 +1443,17 @@ TABLE["C10"] += [
     B("namespace-without-classes-returns-before-its-functions", {"T14"},
       (MW, "        if inner_namespace:\n            self.content.append(inner_namespace_scope)\n", "        if inner_namespace:\n            if not inner_namespace_scope:\n                return wrapped\n            self.content.append(inner_namespace_scope)\n")),
 ]
+
+# ownership along access paths (a shallow copy shares everything below its first level)
+_SHALLOW_TYPE = ((HP, "from copy import deepcopy", "import copy\nfrom copy import deepcopy"),
+                 (HP, "    ctype = deepcopy(ctype)", "    ctype = copy.copy(ctype)"))
+_ARGS_COPY = "            return ArgumentList([copy.copy(arg) for arg in args.list()])"
+for _p, _r in (("C01", "G8"), ("C02", "S7"), ("C13", "P1"), ("C09", "W5")):
+    TABLE[_p] += [B("instantiate-type-shallow-copy", {_r}, *_SHALLOW_TYPE)]
+TABLE["C01"] += [
+    B("default-expansion-shares-the-list", {"G8"}, (MW, _ARGS_COPY, "            return ArgumentList(args.list())")),
+    B("default-expansion-shares-the-arguments", {"G8"}, (MW, _ARGS_COPY, "            return ArgumentList([arg for arg in args.list()])")),
+    B("default-expansion-keeps-the-argument-list", {"G8"}, (MW, "            method2.args = args_copy(method.args)\n            method2.args.backup = method.args.backup\n", "")),
+    N("default-expansion-deep-copy", (MW, _ARGS_COPY, "            return ArgumentList(copy.deepcopy(args.list()))")),
+    N("default-expansion-list-alias", (MW, "                method.args.list().remove(arg)", "                remaining = method.args.list()\n                remaining.remove(arg)")),
+]
